@@ -47,7 +47,7 @@ def f(x, acc=[]):
 """
 
 
-def _local_fresh_names(fn):
+def _local_fresh_names(fn, modtree=None):
     """Names bound in fn to a freshly constructed object or a fresh container (so stores on them are local)."""
     fresh = set()
     for n in ast.walk(fn):
@@ -62,12 +62,40 @@ def _local_fresh_names(fn):
                 if name in ('cls', 'list', 'dict', 'set', 'bytearray') or name[:1].isupper() or \
                         (isinstance(f, ast.Attribute) and isinstance(f.value, ast.Name) and f.value.id == 'cls'):
                     fresh.add(n.targets[0].id)
+                elif _class_valued(f, modtree):
+                    fresh.add(n.targets[0].id)
     return fresh
+
+
+def _class_valued(f, modtree):
+    """Is the callee expression a class chosen at run time - TABLE[key] / TABLE.get(key) over a module-level dict whose
+    values are all class names, `A if c else B` of class names, type(self) / self.__class__ ?"""
+    def is_class_name(x):
+        return isinstance(x, ast.Name) and x.id[:1].isupper() and not x.id.isupper()
+    if isinstance(f, ast.IfExp):
+        return all(is_class_name(x) or _class_valued(x, modtree) for x in (f.body, f.orelse))
+    if isinstance(f, ast.Call) and isinstance(f.func, ast.Name) and f.func.id == 'type' and len(f.args) == 1:
+        return True
+    if isinstance(f, ast.Attribute) and f.attr == '__class__':
+        return True
+    tbl = None
+    if isinstance(f, ast.Subscript) and isinstance(f.value, ast.Name):
+        tbl = f.value.id
+    if isinstance(f, ast.Call) and isinstance(f.func, ast.Attribute) and f.func.attr == 'get' and isinstance(f.func.value, ast.Name):
+        tbl = f.func.value.id
+    if tbl is None or modtree is None:
+        return False
+    for st in modtree.body:
+        if isinstance(st, (ast.Assign, ast.AnnAssign)):
+            tg = st.targets if isinstance(st, ast.Assign) else [st.target]
+            if any(isinstance(t_, ast.Name) and t_.id == tbl for t_ in tg) and isinstance(st.value, ast.Dict) and st.value.values:
+                return all(is_class_name(v_) for v_ in st.value.values)
+    return False
 
 
 def _stores(fi):
     """Yield (kind, base expression text, attribute, node) for every store to non-local state in fi."""
-    fresh = _local_fresh_names(fi.node)
+    fresh = _local_fresh_names(fi.node, fi.module.tree)
     selfname = fi.params[0] if fi.params and fi.kind in ('method', 'property') else None
     for n in ast.walk(fi.node):
         targets = []
